@@ -181,14 +181,21 @@ func c03Exec(in c03Input) c03Result {
 // input generation
 
 type c03Corpus struct {
-	seeds   []string
-	origins []string
-	trees   []map[string]string
+	seeds     []string
+	origins   []string
+	trees     []map[string]string
+	progSeeds []int
 }
 
 func c03BuildCorpus(seed int64) *c03Corpus {
 	c := &c03Corpus{}
-	add := func(origin, s string) { c.seeds = append(c.seeds, s); c.origins = append(c.origins, origin) }
+	add := func(origin, s string) {
+		if origin != "repo test string" {
+			c.progSeeds = append(c.progSeeds, len(c.seeds))
+		}
+		c.seeds = append(c.seeds, s)
+		c.origins = append(c.origins, origin)
+	}
 	for _, s := range harvestTestStrings() {
 		add("repo test string", s)
 	}
@@ -214,9 +221,17 @@ func c03BuildCorpus(seed int64) *c03Corpus {
 
 var c03Tokens = []string{"func", "return", "if", "else", "for", "range", "switch", "case", "default", "break", "continue", "var", "const", "type", "struct", "interface", "map", "package", "import", "make", "(", ")", "{", "}", "[", "]", ",", ";", ":", ":=", "=", "+", "-", "*", "/", "%", "&", "|", "^", "<<", ">>", "&&", "||", "!", "<", ">", "==", "!=", "++", "--", "...", ".", "$", "~", "#", "`", "\"", "'", "\\", "0x", "1e", "99999999999999999999", "0777777777777777777777", "1.5e999", "nil", "true", "iota", "_", "\x00", "\xff", "\xc3", "é", "chan", "go", "<-", "->", "goto", "defer", "[]", "*", "&T{", "x.", ".y", "@"}
 
+var c03IndexLit = regexp.MustCompile(`\[\d+\]`)
+
 func c03Mutate(rng *core.Rng, s string) (string, string) {
 	b := []byte(s)
-	switch m := rng.Intn(14); m {
+	switch m := rng.Intn(15); m {
+	case 13: // an index literal becomes large or negative (operands of fused index instructions, dumps)
+		locs := c03IndexLit.FindAllStringIndex(s, -1)
+		if len(locs) > 0 {
+			l := core.Pick(rng, locs)
+			return s[:l[0]] + "[" + core.Pick(rng, []string{"404", "70000", "-1", "2147483647", "65536", "4000000000", "-70000"}) + "]" + s[l[1]:], "index-literal"
+		}
 	case 0: // prefix
 		if len(b) > 0 {
 			return string(b[:rng.Intn(len(b))]), "prefix"
@@ -395,6 +410,9 @@ func c03MakeInput(seed int64, corpus *c03Corpus, idx int, exhaustivePrefixes []s
 	switch k := rng.Intn(20); {
 	case k < 11:
 		i := rng.Intn(len(corpus.seeds))
+		if rng.Chance(1, 4) && len(corpus.progSeeds) > 0 {
+			i = core.Pick(rng, corpus.progSeeds) // generated programs and snippets: code with locals, fusions, methods
+		}
 		s := corpus.seeds[i]
 		mut := "none"
 		for n := rng.Intn(3); n >= 0; n-- {
